@@ -5,6 +5,8 @@
 
 pub mod deliver;
 pub mod engine;
+#[cfg(feature = "fuzz")]
+pub mod fuzzglue;
 pub mod gen;
 pub mod known;
 pub mod model;
